@@ -46,6 +46,7 @@ def vary(rng, items, lines, p=0.5):
 # comments (documented: `#` to the end of the line) whose text looks like something the assembler knows
 COMMENTS = ['# save string pointer', '# error code in a0', '#string x', '# include defs.asm', '# x1, x2', '# bytes 1 2 3', '# K = 5', '# loop:',
             '# 50% done', "# don't", '# (see above', '# pack <I 5', '# align 4', '# error', '# string', '# li x1, 1 # twice', '#',
+            '## banner ##', '# item #1', '#### section', '# a # b # c', '#-#',
             "# 'A' would be 65", "# not '\\n'", "# ',' and ' '", "# '#'", "#'x'"]
 
 
